@@ -39,6 +39,33 @@ def run(ck):
             key = "C12:%s:%s" % (m["kind"], " ".join(m["seq"].split()[:m["step"] + 1]))
             ck.violation(key, "sequence [%s], request %d: %s: specification requires %s, server gives %s" % (m["seq"], m["step"] + 1, m["kind"], m["want"], m["got"]), m)
     ck.cov["edge_cover"] = len(edges)
+    # the WSP carrier (player only; PAUSE legal while playing): its own automaton (Carrier = "wsp"), same driver
+    w3 = ck.tlc("rtsp", "RtspSession", "Wsp3.cfg", timeout=900, label="WSP carrier: all request sequences up to length 3")
+    ck.model(w3)
+    we = ck.tlc("rtsp", "RtspSession", "WspEdges.cfg", timeout=900, label="WSP carrier: edge cover")
+    ck.model(we)
+    wsim = ck.tlc("rtsp", "RtspSession", "WspSim.cfg", simulate="num=%d" % (40 if q else 600), depth=16, timeout=900, label="WSP carrier: simulated sequences of length 12")
+    wrows, wedges, wsims = w3.printed("@H"), we.printed("@H"), wsim.printed("@H")
+    if len(wrows) < 1000 or len(wedges) < 100 or len(wsims) < 10:
+        raise Infra("WSP generation produced %d/%d/%d sequences" % (len(wrows), len(wedges), len(wsims)))
+    if q:
+        rnd.shuffle(wrows)
+        wrows = wrows[:1500]
+    wall = wedges + wsims + wrows
+    ck.run_driver("./rtspsess", "^TestSequences$", {"VERIF_IN": ck.write_lines("c12_wsp.ndjson", wall), "VERIF_OUT": out, "VERIF_TRANSPORT": "wsp"}, timeout=3000)
+    res = ck.read_result(out)
+    if res["sequences"] + res["skipped_not_expressible"] != len(wall) and not res["mismatches"]:
+        raise Infra("driver ran %d of %d WSP sequences" % (res["sequences"], len(wall)))
+    if res["over_websocket"] < len(wall) // 2 and not res["mismatches"]:
+        raise Infra("only %d of %d sequences ran over WSP" % (res["over_websocket"], len(wall)))
+    ck.cov["traces_validated_against_impl"] += res["sequences"]
+    ck.cov["requests"] += res["requests"]
+    ck.cov["sequences_over_wsp"] = res["over_websocket"]
+    ck.cov["wsp_edge_cover"] = len(wedges)
+    ck.count(res["requests"], ("wsp%d" % i for i in range(res["distinct"])))
+    for m in res["mismatches"] or []:
+        key = "C12:%s:%s" % (m["kind"], " ".join(m["seq"].split()[:m["step"] + 1]))
+        ck.violation(key, "sequence [%s], request %d: %s: specification requires %s, server gives %s" % (m["seq"], m["step"] + 1, m["kind"], m["want"], m["got"]), m)
     # TEARDOWN of a multicast player releases its membership of the shared proxy (the session automaton's stream has no
     # multicast source; this leg publishes one)
     trm = os.path.join(ck.tmp, "mcast.ndjson")
@@ -61,8 +88,8 @@ def run(ck):
 
 
 META = {
-    "text": "RtspSession.tla is the session automaton of the statement (20 abstract states x 19 request kinds). TLC produces the complete edge cover (266 (state, request) pairs, each with a shortest prefix), all sequences up to length 3 (6.5k; quick replays a seeded 1500) and simulated sequences of length 12, each request annotated with the required answer class and data-plane obligations; every sequence is replayed on a real TCP connection and on an RTSP-over-WebSocket connection (strict parser: one message = one response or one frame) to the in-process server while a live stream with an audio track is being published.",
-    "note": "Trusted: TLC, RtspSession.tla as transcription of the statement, the independent strict RTSP/interleaved parser of harness/vclient. WSP wraps the same session requests in its control channel; it is exercised by the C11/C01/C13 drivers.",
+    "text": "RtspSession.tla is the session automaton of the statement (20 abstract states x 19 request kinds). TLC produces the complete edge cover (266 (state, request) pairs, each with a shortest prefix), all sequences up to length 3 (6.5k; quick replays a seeded 1500) and simulated sequences of length 12, each request annotated with the required answer class and data-plane obligations; every sequence is replayed on a real TCP connection and on an RTSP-over-WebSocket connection (strict parser: one message = one response or one frame) to the in-process server while a live stream with an audio track is being published; the sequences of the WSP carrier's automaton are replayed over a WSP channel pair (requests wrapped on the control socket, media on the data socket).",
+    "note": "Trusted: TLC, RtspSession.tla as transcription of the statement, the independent strict RTSP/interleaved parser of harness/vclient. The WSP carrier has its own session code (service/wsp) and its own automaton (Carrier = wsp: player only, PAUSE legal while playing, interleaved TCP only).",
     "technique": "TLA+ automaton of the RTSP session; TLC edge cover + exhaustive short sequences + simulation replayed on real connections with per-request comparison",
     "specs": ["rtsp", "fanout"],
 }
